@@ -767,6 +767,44 @@ func c16Misc(ctx *run.Ctx) {
 			}
 			cc.Count("pipeline_runs", 3)
 		}
+		// Count from a fractional start: from, from+1, (from+1)+1, ...
+		for _, from := range []float64{0.1, -0.7, 1e-20, 0.5, 3} {
+			other := make([]int, 5)
+			want := make([]float64, len(other))
+			for i, v := 0, from; i < len(want); i, v = i+1, v+1 {
+				want[i] = v
+			}
+			if got := helper.ChanToSlice(helper.Count(from, helper.SliceToChan(other))); !eqSlice(got, want) {
+				cc.Viol("", fmt.Sprintf("Count(%v, 5 values) = %v, want %v", from, got, want), nil)
+				return
+			}
+			f32 := float32(from)
+			want32 := make([]float32, len(other))
+			for i, v := 0, f32; i < len(want32); i, v = i+1, v+1 {
+				want32[i] = v
+			}
+			if got := helper.ChanToSlice(helper.Count(f32, helper.SliceToChan(other))); !eqSlice(got, want32) {
+				cc.Viol("", fmt.Sprintf("Count[float32](%v, 5 values) = %v, want %v", f32, got, want32), nil)
+				return
+			}
+			cc.Count("pipeline_runs", 2)
+		}
+		// First ends its output as soon as the first N values are known: a
+		// consumer may read it to the end BEFORE it reads the sibling copy of the
+		// same Duplicate (a later close would deadlock here, which the runtime reports)
+		// (N <= 1: Duplicate hands every value to both copies in lock-step, so a
+		// second value cannot reach First before the sibling is read at all)
+		for n := 0; n <= 1; n++ {
+			src := []int{10, 20, 30, 40, 50, 60}
+			cs := helper.Duplicate(helper.SliceToChan(src), 2)
+			head := helper.ChanToSlice(helper.First(cs[0], n))
+			rest := helper.ChanToSlice(cs[1])
+			if !eqSlice(head, src[:n]) || !eqSlice(rest, src) {
+				cc.Viol("", fmt.Sprintf("First(%d) read to its end before the sibling copy of one Duplicate: got %v and %v from %v", n, head, rest, src), nil)
+				return
+			}
+			cc.Count("pipeline_runs", 1)
+		}
 		cc.Count("pipeline_runs", 2)
 		cc.Distinct("special-values")
 	})
